@@ -252,7 +252,15 @@ class Engine:
             p = it.path
             try:
                 try:
-                    p.ret = thunk(it)
+                    try:
+                        p.ret = thunk(it)
+                    except (KeyError, AttributeError, IndexError, TypeError) as e:
+                        # the contract refers to a local / attribute / shape that the current source no longer has:
+                        # a contract-mapping error makes the function undecided, it is never a violation
+                        import traceback
+                        tb = traceback.extract_tb(e.__traceback__)
+                        where = '%s:%d' % (tb[-1].filename.split('/')[-1], tb[-1].lineno) if tb else '?'
+                        raise Unsupported('CONTRACT-MAPPING %s: %r at %s' % (type(e).__name__, e, where))
                     p.end = 'return'
                 except PyExc as e:
                     p.exc = e.exc
